@@ -1667,7 +1667,7 @@ int EGLPNUM_TYPENAME_ILLlib_delcols (
 
 	for (i = 0; i < num; i++)
 	{
-		if (dellist[i] < 0 || dellist[i] >= ncols) {
+		if (dellist[i] < 0 || dellist[i] >= qslp->nstruct) {
 			rval = 1;
 			ILL_CLEANUP;
 		}
@@ -1968,6 +1968,23 @@ int EGLPNUM_TYPENAME_ILLlib_chgsense (
 	int i, j, k;
 	EGLPNUM_TYPENAME_ILLlpdata *qslp = lp->O;
 	EGLPNUM_TYPENAME_ILLmatrix *A = &(lp->O->A);
+
+	/* validate the whole request first: a rejected call changes nothing */
+	for (i = 0; i < num; i++)
+	{
+		if (rowlist[i] < 0 || rowlist[i] >= qslp->nrows)
+		{
+			QSlog("EGLPNUM_TYPENAME_ILLlib_chgsense called with bad row index %d", rowlist[i]);
+			rval = 1;
+			ILL_CLEANUP;
+		}
+		if (sense[i] != 'R' && sense[i] != 'E' && sense[i] != 'G' && sense[i] != 'L')
+		{
+			QSlog("illegal sense %c in EGLPNUM_TYPENAME_ILLlib_chgsense", sense[i]);
+			rval = 1;
+			ILL_CLEANUP;
+		}
+	}
 
 	for (i = 0; i < num; i++)
 	{
